@@ -267,6 +267,12 @@ for _o in (True, False):
     OBLIGATIONS.append(Ob("jacobian_selfcheck_%s" % ("orth" if _o else "nonorth"), c02._mk_inverse(_o, 1.0, 1.0), tier="quick", family="metric",
                           encodes=["hypnotoad.core.mesh:MeshRegion.calcMetric"], desc="the Jacobian self-check cannot fire on admissible input and the metric it protects is self-consistent",
                           bounds="all reals"))
+for _o in (True, False):
+    for _bs in (1.0, -1.0):
+        OBLIGATIONS.append(Ob("jacobian_check_rejects_folded_cells_%s_bpsign%+d" % ("orth" if _o else "nonorth", int(_bs)), c02._mk_jacobian_guard(_o, _bs), tier="quick", family="metric",
+                              encodes=["hypnotoad.core.mesh:MeshRegion.calcMetric"],
+                              desc="hy of arbitrary sign at one entry (each entry of centre, xlow, ylow, corners in turn): calcMetric returns only if it is > 0 (last guard against a folded cell)",
+                              bounds="nx=ny=1 (all entries of all four locations), all values symbolic"))
 for _inc in (True, False):
     OBLIGATIONS.append(Ob("bp_sign_guard_psi_%s" % ("increasing" if _inc else "decreasing"), c02._mk_geometry1(_inc), tier="quick", family="fields",
                           encodes=["hypnotoad.core.mesh:MeshRegion.geometry1"], desc="returns => sign(Bpxy) = bpsign everywhere; raises only on a genuine sign mismatch", bounds="nx=1, ny=3"))
